@@ -22,7 +22,7 @@ LEVEL = "model_checking"
 
 def run(ctx):
     thorough = ctx.tier == "thorough"
-    jobs = [("C28_sim", "simulate", 1600 if thorough else 200, 8 if thorough else 4)]
+    jobs = [("C28_sim", "simulate", 800 if thorough else 200, 8 if thorough else 4)]
     res = qcommon.generate_parallel(ctx, jobs)
     beh = qcommon.merge(ctx, res["C28_sim"], "C28_sim")
     env = qcommon.cfg_env("C28_sim")
